@@ -76,6 +76,31 @@ class Sym(Val):
         return 'Sym(%s)' % self.text
 
 
+class DictV(Sym):
+    """A dict display (or a module / class constant bound to one): renders like the opaque expression it was before, but a lookup
+    with a constant key among constant keys is resolved (entries: [(key Val, value Val)])."""
+    def __init__(self, text, entries):
+        Sym.__init__(self, text)
+        self.entries = entries
+
+
+def _is_const(v):
+    return isinstance(v, Const) or (isinstance(v, ListV) and all(_is_const(e) for e in v.elems))
+
+
+def dict_lookup(d, key, st):
+    """(found?, value) for a constant key in a DictV whose keys are all constant and which was not stored into; None = not decidable"""
+    if not isinstance(d, DictV) or not _is_const(key) or not all(k is not None and _is_const(k) for k, v in d.entries):
+        return None
+    if any(p.startswith(d.text + '[') for p in st.env):
+        return None
+    kt = render(key)
+    for k, v in d.entries:
+        if render(k) == kt:
+            return True, v
+    return False, None
+
+
 class Bytes(Val):
     """Concatenation of items.  Items are tuples:
        ('C', bytes) ('INT', width, text) ('BYTE', text) ('SYM', text) ('SLICE', inner_render, lo, hi)
@@ -1063,7 +1088,7 @@ class Frame(object):
             if isinstance(r, Const) and r.value is None:
                 if isinstance(l, Const):
                     res = l.value is None
-                elif isinstance(l, (Bytes, ListV, Obj, Hasher)) or (isinstance(l, Sym) and l.nonnull):
+                elif isinstance(l, (Bytes, ListV, Obj, Hasher, ClassV, FuncV, DictV)) or (isinstance(l, Sym) and l.nonnull):
                     res = False
                 else:
                     return None
@@ -1076,6 +1101,9 @@ class Frame(object):
             return None
         if isinstance(op, (ast.In, ast.NotIn)):
             neg = isinstance(op, ast.NotIn)
+            hit = dict_lookup(r, l, st)
+            if hit is not None:
+                return (not hit[0]) if neg else hit[0]
             if isinstance(l, Const) and isinstance(r, ListV) and all(isinstance(e, Const) for e in r.elems):
                 res = any(e.value == l.value for e in r.elems)
                 return (not res) if neg else res
@@ -1190,7 +1218,8 @@ class Frame(object):
             try:
                 return Const(ast.literal_eval(self.module.assigns[node.id]))
             except Exception:
-                pass
+                if isinstance(self.module.assigns[node.id], ast.Dict) and len(self.module.assigns[node.id].keys) <= 64:
+                    return self.ev_Dict(self.module.assigns[node.id], State(), text=node.id)      # a table kept as a module constant
         return Sym(node.id)
 
     def ev_Attribute(self, node, st):
@@ -1205,7 +1234,7 @@ class Frame(object):
             ci = base.ci
             av = ci.find_attr(node.attr)
             if av is not None:
-                cv = self._class_collection(ci, node.attr, av, st)
+                cv = self._class_collection(ci, node.attr, av, st, text=path)
                 if cv is not None:
                     return cv
                 members = None
@@ -1230,7 +1259,7 @@ class Frame(object):
             # class-level constant attribute (e.g. __pubfields__) seen through the instance
             av = cls.find_attr(node.attr)
             if av is not None and cls.find_prop(node.attr) is None:
-                cv = self._class_collection(cls, node.attr, av, st)
+                cv = self._class_collection(cls, node.attr, av, st, text=normalise_path(path))
                 if cv is not None:
                     return cv
                 try:
@@ -1251,8 +1280,13 @@ class Frame(object):
                         return r
         return Sym(normalise_path(path))
 
-    def _class_collection(self, cls, name, av, st):
+    def _class_collection(self, cls, name, av, st, text=None):
         """Class-level NAME = {A, B} / frozenset({...}) / (A, B) of enum members, seen through an instance or the class."""
+        if isinstance(av, ast.Dict) and av.keys and len(av.keys) <= 64 and text is not None:
+            owner = next((c for c in cls.mro() if name in c.attrs), None)
+            if owner is not None:            # a table kept as a class constant: evaluated in the namespace of the class that defines it
+                fr = Frame(self.I, FunctionInfo(ast.parse('def _f(): pass').body[0], owner.module, owner), self.depth)
+                return fr.ev_Dict(av, State(), text=text)
         inner = av
         if isinstance(av, ast.Call) and dotted(av.func) in ('frozenset', 'set', 'tuple', 'list') and len(av.args) == 1:
             inner = av.args[0]
@@ -1291,11 +1325,14 @@ class Frame(object):
     def ev_Set(self, node, st):
         return ListV([self.ev(e, st) for e in node.elts], 'set')
 
-    def ev_Dict(self, node, st):
-        parts = []
+    def ev_Dict(self, node, st, text=None):
+        parts, entries = [], []
         for k, v in zip(node.keys, node.values):
-            parts.append('%s: %s' % (self.text(k, st) if k is not None else '**', self.text(v, st)))
-        return Sym('{%s}' % ', '.join(parts))
+            kv = self.ev(k, st, quiet=True) if k is not None else None
+            vv = self.ev(v, st, quiet=True)
+            entries.append((kv, vv))
+            parts.append('%s: %s' % (render(kv) if k is not None else '**', render(vv)))
+        return DictV(text or '{%s}' % ', '.join(parts), entries)
 
     def ev_Starred(self, node, st):
         return Sym('*' + self.text(node.value, st))
@@ -1516,6 +1553,9 @@ class Frame(object):
                 return Bytes([mk_slice(merge_consts(base.items), lo, hi)])
             return Bytes([mk_slice(render(base), lo, hi)])
         idx = self.ev(sl, st)
+        hit = dict_lookup(base, idx, st)
+        if hit is not None and hit[0]:
+            return hit[1]
         if isinstance(base, ListV) and isinstance(idx, Const) and isinstance(idx.value, int):
             try:
                 return base.elems[idx.value]
@@ -1683,6 +1723,11 @@ class Frame(object):
                     if r is not None:
                         return r
                     return Sym('%s.%s(%s)' % (recv.ci.name, meth, ', '.join(render(a) for a in args)))
+            if isinstance(recv, DictV) and meth == 'get' and 1 <= len(args) <= 2 and not kwargs:
+                hit = dict_lookup(recv, args[0], st)
+                if hit is not None:          # constant key among constant keys: the lookup is decided
+                    record(ftext)
+                    return hit[1] if hit[0] else (args[1] if len(args) == 2 else Const(None))
             # self.m(...) / obj.m(...) with a known class
             cls = recv.cls if isinstance(recv, (Sym, Obj)) else None
             if cls is not None:
@@ -1796,7 +1841,11 @@ class Frame(object):
                 return Sym('%s(%s)' % (n, self._argtext(args, kwargs)))
             record(n)
             return Sym('%s(%s)' % (n, self._argtext(args, kwargs)))
-        ftext = self.text(func, st)
+        fv = self.ev(func, st, quiet=True)
+        if isinstance(fv, ClassV):          # (a or B)() / (A if c else B)() once the callee expression is decided to be a class
+            record(fv.ci.name)
+            return self._construct(fv.ci, args, kwargs, st, node)
+        ftext = render(fv)
         record(ftext)
         return Sym('%s(%s)' % (ftext, self._argtext(args, kwargs)))
 
